@@ -54,7 +54,7 @@ CHECKS = {
         level="model_checking",
         text="QtlThreads.tla models Logger::processMessage and OwnThreadHandler with one program counter per thread and one action per lock "
              "operation / access to m_thread, m_worker, m_pendingCount / pipeline step; the pc values are the names of the guarded "
-             "verification points in the code. TLC proves: DrainBeforeStop, NoUseAfterFree, LateMessagesSync, AllDeliveredAtEnd and liveness ResetTerminates over quit / explicit reset / destructor / start-stop cycles and a second concurrent stopper (the unrepaired double-stop variant and the no-application environment must violate). Binding: move/reset scripts on one or two stopper threads racing the producers, plus one child process per stop path (application quit, explicit reset, cycles, logger destroyed while the application lives, singleton destroyed at exit); each recorded execution (call begin/end, points with the "
+             "verification points in the code. TLC proves: DrainBeforeStop, NoUseAfterFree, LateMessagesSync, AllDeliveredAtEnd and liveness ResetTerminates over quit / explicit reset / destructor / start-stop cycles and a second concurrent stopper, and QuitFindsHook when a second thread without an event loop switches asynchronous mode on (the unrepaired double-stop variant, the no-application environment and the variant that leaves the thread object on the calling thread must violate). Binding: move/reset scripts on one or two stopper threads racing the producers, plus one child process per stop path (application quit, explicit reset, cycles, logger destroyed while the application lives, singleton destroyed at exit, asynchronous mode switched on by a second thread); each recorded execution (call begin/end, points with the "
              "scalars they carry, probe events inside the pipeline) is validated by TLC against the module.",
         design="5/C04",
         note="Schedules of the real code are the ones seeded jitter produces; mutex releases are not events (conf.eager); C04 is claimed for "
@@ -301,7 +301,11 @@ def main():
                     for n, what, host in (("QtlPretty", "PrettyFormatter's thread-index / category-width automaton", "C19"),
                                           ("QtlUtils", "setMessagePattern / restorePrevious, setFilterRules, time pattern in file names", "C19"),
                                           ("QtlSignal", "SignalSink: direct and posted slot calls", "C03"),
-                                          ("QtlHttp", "HttpSink: one POST per message", "C18"))],
+                                          ("QtlHttp", "HttpSink: one POST per message", "C18"),
+                                          ("QtlEnv", "AppInfoAttrs / SysInfoAttrs snapshots, AppUuidAttr's persistent UUID across process "
+                                                     "restarts; also an inductive invariant discharged by Apalache (ApaEnv.tla)", "C01"),
+                                          ("QtlLineSinks", "IODeviceSink and SyslogSink: line per message, priority table, process-wide log, "
+                                                           "lifetime of the ident pointer", "C01"))],
         "checks": checks,
         "not_applicable": na,
         "notes": "Every claimed property is decided by a TLA+ module under /verif/spec checked with TLC and bound to the "
